@@ -3,7 +3,6 @@ CONSTANTS
   Impl = "intended"
   Walk = "sorted"
   Slices <- QuickSlices
-  QuantsOf <- TierQuants
 SPECIFICATION Spec
 INVARIANTS TypeOK Faithful RequirementsKept SelfConsistent
 PROPERTIES Determinism
